@@ -38,6 +38,97 @@ type dlScript struct {
 	Part   string     `json:"part"`
 	Script []dlAnswer `json:"script"`
 	MaxReq int        `json:"maxreq"`
+	// custom adapter: the messages the transfer agent answers a download request with
+	Adapter string     `json:"adapter"`
+	Msgs    []agentMsg `json:"msgs"`
+}
+type agentMsg struct {
+	Ev   string `json:"ev"`   // progress | complete | bogus | garbage | eof
+	Oid  string `json:"oid"`  // right | wrong
+	Err  bool   `json:"err"`
+	File string `json:"file"` // exact | prefix | extra | flip | other | empty | nofile
+}
+
+// cmdAgent is the custom transfer agent: line-delimited JSON on stdin/stdout, answers every
+// download request with the scripted messages, then (if the script did not complete the
+// transfer) closes its output.
+func cmdAgent(args []string) {
+	var msgs []agentMsg
+	b, _ := os.ReadFile(args[0])
+	json.Unmarshal(b, &msgs)
+	dir := args[1]
+	content := dlContent()
+	in := bufio.NewReader(os.Stdin)
+	out := bufio.NewWriter(os.Stdout)
+	for {
+		line, err := in.ReadString('\n')
+		if err != nil {
+			return
+		}
+		var req struct {
+			Event string `json:"event"`
+			Oid   string `json:"oid"`
+		}
+		json.Unmarshal([]byte(line), &req)
+		switch req.Event {
+		case "init":
+			out.WriteString("{}\n")
+			out.Flush()
+		case "terminate":
+			return
+		case "download":
+			for _, m := range msgs {
+				oid := req.Oid
+				if m.Oid == "wrong" {
+					oid = strings.Repeat("ab", 32)
+				}
+				switch m.Ev {
+				case "progress":
+					fmt.Fprintf(out, `{"event":"progress","oid":"%s","bytesSoFar":1000,"bytesSinceLast":1000}`+"\n", oid)
+				case "complete":
+					var body []byte
+					switch m.File {
+					case "exact":
+						body = content
+					case "prefix":
+						body = content[:3*cell]
+					case "extra":
+						body = append(append([]byte{}, content...), make([]byte, cell)...)
+					case "flip":
+						body = append([]byte{}, content...)
+						body[2*cell+500] ^= 1
+					case "other":
+						body = make([]byte, len(content))
+					case "empty":
+						body = []byte{}
+					}
+					path := filepath.Join(dir, "agent-file")
+					os.Remove(path)
+					if m.File != "nofile" {
+						os.WriteFile(path, body, 0644)
+					}
+					msg := map[string]interface{}{"event": "complete", "oid": oid, "path": path}
+					if m.Err {
+						msg["error"] = map[string]interface{}{"code": 2, "message": "scripted failure"}
+					}
+					jb, _ := json.Marshal(msg)
+					out.Write(jb)
+					out.WriteString("\n")
+				case "bogus":
+					fmt.Fprintf(out, `{"event":"celebrate","oid":"%s"}`+"\n", oid)
+				case "garbage":
+					out.WriteString("this is not json\n")
+				case "eof":
+					out.Flush()
+					return
+				}
+				out.Flush()
+			}
+			// script exhausted without completing: nothing more will come
+			out.Flush()
+			return
+		}
+	}
 }
 type dlResult struct {
 	ID         int      `json:"id"`
@@ -75,7 +166,11 @@ func runDL(sc *dlScript, base string) dlResult {
 	srv = httptest.NewServer(http.HandlerFunc(func(w http.ResponseWriter, r *http.Request) {
 		if strings.HasSuffix(r.URL.Path, "/objects/batch") {
 			w.Header().Set("Content-Type", "application/vnd.git-lfs+json")
-			json.NewEncoder(w).Encode(map[string]interface{}{"transfer": "basic", "objects": []map[string]interface{}{{"oid": oid, "size": len(content),
+			transfer := "basic"
+			if sc.Adapter == "custom" {
+				transfer = "verifagent"
+			}
+			json.NewEncoder(w).Encode(map[string]interface{}{"transfer": transfer, "objects": []map[string]interface{}{{"oid": oid, "size": len(content),
 				"actions": map[string]interface{}{"download": map[string]string{"href": srv.URL + "/store/" + oid}}}}})
 			return
 		}
@@ -143,8 +238,20 @@ func runDL(sc *dlScript, base string) dlResult {
 	defer srv.Close()
 	dir, _ := os.MkdirTemp(base, "dl-")
 	defer os.RemoveAll(dir)
-	c, err := lfsapi.NewClient(lfshttp.NewContext(nil, nil, map[string]string{"lfs.url": srv.URL + "/api",
-		"lfs.transfer.maxretries": fmt.Sprint(sc.MaxReq), "lfs.transfer.maxretrydelay": "0"}))
+	gitcfg := map[string]string{"lfs.url": srv.URL + "/api",
+		"lfs.transfer.maxretries": fmt.Sprint(sc.MaxReq), "lfs.transfer.maxretrydelay": "0"}
+	if sc.Adapter == "custom" {
+		mb, _ := json.Marshal(sc.Msgs)
+		mf := filepath.Join(dir, "agent-msgs.json")
+		os.WriteFile(mf, mb, 0644)
+		self, _ := os.Executable()
+		agentDir := filepath.Join(dir, "agent")
+		os.MkdirAll(agentDir, 0755)
+		gitcfg["lfs.customtransfer.verifagent.path"] = self
+		gitcfg["lfs.customtransfer.verifagent.args"] = "agent " + mf + " " + agentDir
+		gitcfg["lfs.customtransfer.verifagent.concurrent"] = "false"
+	}
+	c, err := lfsapi.NewClient(lfshttp.NewContext(nil, nil, gitcfg))
 	if err != nil {
 		res.Result = "infra: " + err.Error()
 		return res
